@@ -4,6 +4,7 @@ import (
 	"fmt"
 	"go/token"
 	"go/types"
+	"os"
 	"strings"
 
 	"golang.org/x/tools/go/ssa"
@@ -562,6 +563,11 @@ func runC13(c *Ctx) {
 				}
 			}
 			ends := ev != nil
+			if os.Getenv("YV_DEBUG") == "c13piv" {
+				for _, fr := range frames {
+					fmt.Fprintln(os.Stderr, "c13piv", name, shortFn(fr.g), fr.ev != nil, fr.ev != nil && w.ErrEdgeEnds(fr.g, fr.ev), fr.g == fn || w.failurePropagates(fn, fr.g))
+				}
+			}
 			for _, fr := range frames {
 				if fr.ev == nil || !w.ErrEdgeEnds(fr.g, fr.ev) || !(fr.g == fn || w.failurePropagates(fn, fr.g)) {
 					ends = false
@@ -693,7 +699,7 @@ func runC13(c *Ctx) {
 					return true
 				}
 				bin, ok := l.V.(*ssa.BinOp)
-				if !ok || !l.Pol || bin.Op != token.EQL {
+				if !ok || !((l.Pol && bin.Op == token.EQL) || (!l.Pol && bin.Op == token.NEQ)) {
 					return false
 				}
 				k, isK := strConst(bin.Y)
